@@ -67,6 +67,7 @@ func (p *Parser) Reset() {
 	}
 	p.sendMe = &ParserReply{}
 	p.yield = nil
+	p.inBacktick = false
 	p.lexer.Reset()
 }
 
@@ -92,6 +93,7 @@ func (p *Parser) ResetAddNewInput(s io.RuneScanner) {
 	}
 	p.yield = nil
 	p.sendMe = &ParserReply{}
+	p.inBacktick = false
 	p.lexer.Reset()
 	p.lexer.AddNextStream(s)
 }
